@@ -251,50 +251,84 @@ def widen32 (b : Nat) : Nat :=
 
 def u32 (n : Nat) : Nat := n % 2 ^ 32
 
-/-- `for frac&float32ExpMask == 0 { frac <<= 1; exp-- }` -/
+/-- float16.go:121-124 `for frac&float32ExpMask == 0 { frac <<= 1; exp-- }` on uint32 (32 shifts empty
+    a uint32, so 32 units of fuel are enough; the loop is only entered with frac ≠ 0) -/
 def f16NormLoop : Nat → Nat → Nat → Nat × Nat
-  | 0, frac, ex => (frac, ex)
-  | f+1, frac, ex =>
-    if frac &&& 0x7f800000 = 0 then f16NormLoop f (u32 (frac <<< 1)) (u32 (ex + 2 ^ 32 - 1)) else (frac, ex)
+  | 0, frac, exp => (frac, exp)
+  | fuel+1, frac, exp =>
+    if (frac &&& 0x7f800000) = 0 then
+      let frac := (u32 (frac <<< 1))
+      let exp := (u32 (exp + 2 ^ 32 - 1))
+      f16NormLoop fuel frac exp
+    else (frac, exp)
 
-def expandF16ToF32 (h : Nat) : Nat :=
-  let sign := u32 ((h &&& 0x8000) <<< 16)
-  let frac := u32 ((h &&& 0x03ff) <<< 13)
-  let ex := (h &&& 0x7c00) >>> 10
-  if ex = 0x1f then sign ||| 0x7f800000 ||| frac
+/-- float16.go:104-129 expandF16ToF32, statement by statement (an `if` without else duplicates the
+    rest of the function).  This text is what /verif/extract/c02bits generates from the Go source;
+    Props.C02 `gen_expandF16ToF32_ok` proves by `rfl` that it still is. -/
+def expandF16ToF32 (in_ : Nat) : Nat :=
+  let sign := (u32 ((in_ &&& 0x8000) <<< 16))
+  let frac := (u32 ((in_ &&& 0x03ff) <<< 13))
+  let exp := ((in_ &&& 0x7c00) >>> 10)
+  if exp = 0x1f then
+    ((sign ||| 0x7f800000) ||| frac)
   else
-    let (frac, ex, zero) :=
-      if ex = 0 then
-        if frac = 0 then (frac, ex, true)
-        else
-          let (f, e) := f16NormLoop 24 frac (ex + 1)
-          (f &&& 0x007fffff, e, false)
-      else (frac, ex, false)
-    if zero then sign
+    if exp = 0 then
+      if frac = 0 then
+        sign
+      else
+        let exp := (u32 (exp + 1))
+        let (frac, exp) := f16NormLoop 32 frac exp
+        let frac := (frac &&& 0x007fffff)
+        let exp := (u32 (exp + (0x7f - 0xf)))
+        ((sign ||| (u32 (exp <<< 23))) ||| frac)
     else
-      let ex := u32 (ex + (0x7f - 0xf))
-      sign ||| u32 (ex <<< 23) ||| frac
+      let exp := (u32 (exp + (0x7f - 0xf)))
+      ((sign ||| (u32 (exp <<< 23))) ||| frac)
 
 /-! ### mathx/float80.go Float80.Float64 (fixed code) -/
 
 /-- Go `float64(m)` for a uint64: round to nearest even -/
 def u64ToF64 (m : Nat) : Nat := roundF64 false m 0
 
-/-- Float80.Float64 (float80.go, after the fixes b01458f9 and 36e2f831): exponent all ones → NaN
-    (any fraction bit set; math.NaN()) or ±Inf; otherwise `big.Float` with 64 bits of precision holds
-    m·2^(max exp 1 − 16383 − 63) exactly and `(*big.Float).Float64()` rounds ONCE, to nearest even,
-    overflow to ±Inf, underflow to subnormals / 0; the sign is applied afterwards (`v = -v`). -/
-def f80to64 (se m : Nat) : Nat :=
-  let sign := se >>> 15
-  let ex := se &&& 0x7FFF
-  let frac := m &&& 0x7FFFFFFFFFFFFFFF
-  if ex = 0x7FFF then
-    if frac ≠ 0 then 0x7FF8000000000001
-    else if sign ≠ 0 then 0xFFF0000000000000 else 0x7FF0000000000000
+/-- Go `v = -v` on a float64 given by its bits: the sign bit is flipped -/
+def negF64 (v : Nat) : Nat := if v ≥ 2 ^ 63 then v - 2 ^ 63 else v + 2 ^ 63
+
+/-- Float80.Float64 (float80.go, after the fixes b01458f9 and 36e2f831), statement by statement:
+    exponent all ones → NaN (any fraction bit set; math.NaN()) or ±Inf; otherwise a `big.Float` with
+    64 bits of precision holds m·2^(max exp 1 − 16383 − 63) exactly and `(*big.Float).Float64()`
+    rounds ONCE, to nearest even, overflow to ±Inf, underflow to subnormals / 0 (`roundF64`); the
+    sign is applied afterwards (`v = -v`).  This text is what /verif/extract/c02bits generates from
+    the Go source; Props.C02 `gen_f80to64_ok` proves by `rfl` that it still is. -/
+def f80to64 (f_se f_m : Nat) : Nat :=
+  let se := f_se
+  let m := f_m
+  let sign := (se >>> 15)
+  let exp := (se &&& 0x7FFF)
+  let frac := (m &&& 0x7FFFFFFFFFFFFFFF)
+  if exp = 0x7FFF then
+    if frac ≠ 0 then
+      0x7FF8000000000001
+    else
+      if sign ≠ 0 then
+        0xFFF0000000000000
+      else
+        0x7FF0000000000000
   else
-    let ex := if ex = 0 then 1 else ex
-    let v := roundF64 false m ((ex : Int) - 16383 - 63)
-    if sign ≠ 0 then (if v ≥ 2 ^ 63 then v - 2 ^ 63 else v + 2 ^ 63) else v
+    if exp = 0 then
+      let exp := 1
+      let v := roundF64 false m ((((exp : Nat) : Int) - 16383) - 63)
+      if sign ≠ 0 then
+        let v := negF64 v
+        v
+      else
+        v
+    else
+      let v := roundF64 false m ((((exp : Nat) : Int) - 16383) - 63)
+      if sign ≠ 0 then
+        let v := negF64 v
+        v
+      else
+        v
 
 /-- the code before fix 36e2f831 (kept so that a revert is recognised and the old defect stays
     documented): `math.Ldexp(float64(m), exp−16383−63)` rounds twice for subnormal results -/
@@ -485,28 +519,71 @@ def utf16Units : List Nat → List Nat
       else 0xFFFD :: utf16Units (v :: rest)
     else u :: utf16Units (v :: rest)
 
-/-- `e.NewDecoder().String(bytes)` as UTF-8 bytes of the Go string; `none` where the model does not
-    apply (malformed UTF-8) -/
-def decodeText (e : Enc) (bytes : List Nat) : Option (List Nat) :=
+/-! golang.org/x/text/encoding/unicode utf8Decoder.Transform on ARBITRARY bytes: well-formed
+    sequences are copied, every maximal ill-formed subpart (W3C / Unicode "best practice", not Go's
+    one-byte rule) becomes one U+FFFD.  `utf8internal.First` / `AcceptRanges` as functions: -/
+
+/-- sequence length announced by a lead byte; 0 = invalid starter (0x80..0xC1, 0xF5..0xFF) -/
+def utf8Size (b0 : Nat) : Nat :=
+  if 0xC2 ≤ b0 ∧ b0 ≤ 0xDF then 2 else if 0xE0 ≤ b0 ∧ b0 ≤ 0xEF then 3 else if 0xF0 ≤ b0 ∧ b0 ≤ 0xF4 then 4 else 0
+
+/-- range of the SECOND byte (excludes over-long forms, surrogates and > U+10FFFF) -/
+def utf8Accept (b0 : Nat) : Nat × Nat :=
+  if b0 = 0xE0 then (0xA0, 0xBF) else if b0 = 0xED then (0x80, 0x9F)
+  else if b0 = 0xF0 then (0x90, 0xBF) else if b0 = 0xF4 then (0x80, 0x8F) else (0x80, 0xBF)
+
+def fffd : List Nat := [0xEF, 0xBF, 0xBD]
+
+/-- the bytes are checked one after the other as far as they are there; at the first missing or
+    unacceptable byte the bytes validated so far are one ill-formed subpart (unicode.go:163-208:
+    the `atEOF` switch and the `handleInvalid` sizes 1/2/3 coincide with this) -/
+def utf8Replace : Nat → List Nat → List Nat
+  | 0, _ => []
+  | _, [] => []
+  | f+1, b0 :: rest =>
+    if b0 < 0x80 then b0 :: utf8Replace f rest
+    else if utf8Size b0 = 0 then fffd ++ utf8Replace f rest
+    else
+      match rest with
+      | [] => fffd
+      | b1 :: r1 =>
+        if (utf8Accept b0).1 ≤ b1 ∧ b1 ≤ (utf8Accept b0).2 then
+          if utf8Size b0 = 2 then b0 :: b1 :: utf8Replace f r1
+          else match r1 with
+            | [] => fffd
+            | b2 :: r2 =>
+              if isCont b2 then
+                if utf8Size b0 = 3 then b0 :: b1 :: b2 :: utf8Replace f r2
+                else match r2 with
+                  | [] => fffd
+                  | b3 :: r3 =>
+                    if isCont b3 then b0 :: b1 :: b2 :: b3 :: utf8Replace f r3
+                    else fffd ++ utf8Replace f r2
+              else fffd ++ utf8Replace f r1
+        else fffd ++ utf8Replace f rest
+
+/-- `e.NewDecoder().String(bytes)` as the UTF-8 bytes of the Go string — total: the x/text decoders
+    never fail, they substitute U+FFFD -/
+def decodeText (e : Enc) (bytes : List Nat) : List Nat :=
   match e with
   | .utf8bom =>
     let body := match bytes with
       | 0xEF :: 0xBB :: 0xBF :: r => r
       | r => r
-    (utf8Decode (body.length + 1) body).map fun _ => body
+    utf8Replace (body.length + 1) body
   | .utf16bom =>
     let (le, body) := match bytes with
       | 0xFE :: 0xFF :: r => (false, r)
       | 0xFF :: 0xFE :: r => (true, r)
       | r => (true, r)                               -- UTF16(LittleEndian, UseBOM): LE unless a BOM says otherwise
     let (us, odd) := units16 le body
-    some ((utf16Units us ++ (if odd then [0xFFFD] else [])).flatMap utf8Encode)
+    (utf16Units us ++ (if odd then [0xFFFD] else [])).flatMap utf8Encode
   | .utf16le =>
     let (us, odd) := units16 true bytes
-    some ((utf16Units us ++ (if odd then [0xFFFD] else [])).flatMap utf8Encode)
+    (utf16Units us ++ (if odd then [0xFFFD] else [])).flatMap utf8Encode
   | .utf16be =>
     let (us, odd) := units16 false bytes
-    some ((utf16Units us ++ (if odd then [0xFFFD] else [])).flatMap utf8Encode)
+    (utf16Units us ++ (if odd then [0xFFFD] else [])).flatMap utf8Encode
 
 /-! ### text framing: read.go:132 tryText, :153 tryTextLenPrefixed, :183 tryTextNull, :203 tryTextNullLen
     The framing result is the raw byte string handed to the text decoder + the new position. -/
